@@ -180,6 +180,60 @@ def ws(case, res):
                     S.v("ws/legal-close-answered-as-violation:" + label, "%d" % c.dec.close_code)
                 if not c.closed:
                     S.v("conn/ended-connection-not-released", label)
+        elif mode == "close-reasons":
+            # close reasons composed of well-formed and ill-formed UTF-8 pieces, up to the longest reason a control frame can carry,
+            # at every alignment of the reason inside the connection's read buffer (set by the legal traffic in front of it);
+            # the verdict is that of a strict UTF-8 decoder: ill-formed -> 1007, well-formed -> an ordinary close
+            good = [b"a", b"ab", b"abcd", b"abcdefgh", b"x" * 9, b"y" * 16, "\u00e9".encode(), "\u00df\u00e4".encode(), "\u20ac".encode(), "\u4e2d\u6587".encode(),
+                    "\U0001F600".encode(), "\U0010FFFF".encode(), "\u07ff".encode(), "\u0800".encode(), "\ud7ff".encode(), "\ue000".encode(), b"\x00", b"\x7f"]
+            bad = [b"\x80", b"\xbf", b"\xc0\x80", b"\xc1\xbf", b"\xe0\x80\x80", b"\xe0\x9f\xbf", b"\xed\xa0\x80", b"\xed\xbf\xbf", b"\xf0\x80\x80\x80", b"\xf0\x8f\xbf\xbf",
+                   b"\xf4\x90\x80\x80", b"\xf5\x80\x80\x80", b"\xf8\x88\x80\x80\x80", b"\xfe", b"\xff", b"\xc3", b"\xe2\x82", b"\xf0\x9f\x98",
+                   # a lead byte, then text that is fine on its own, then the continuation bytes
+                   b"\xc3" + b"a" * 4 + b"\xa9", b"\xc3" + b"a" * 8 + b"\xa9", b"\xe2" + b"b" * 8 + b"\x82\xac", b"\xe2\x82" + b"c" * 8 + b"\xac",
+                   b"\xf0\x9f" + b"d" * 16 + b"\x98\x80", b"\xc3" + "\u00e9\u00e9".encode() + b"\xa9", b"\xe2\x82" + "\u00e9\u00e9\u00e9\u00e9".encode() + b"\xac"]
+            for i in range(prm.get("count", 60)):
+                pieces = [rng.choice(good) for _ in range(rng.randrange(0, 9))]
+                illformed = rng.random() < 0.6
+                if illformed:
+                    pieces.insert(rng.randrange(len(pieces) + 1), rng.choice(bad))
+                reason = b"".join(pieces)[:123]
+                try:
+                    reason.decode("utf-8", "strict")
+                    wellformed = True
+                except UnicodeDecodeError:
+                    wellformed = False
+                c = S.connect("cr%d" % i, "ws")
+                S.handshake(c)
+                S.settle()
+                # legal traffic of varying length in front: the reason starts at a varying offset of the read buffer
+                for _ in range(rng.randrange(0, 3)):
+                    if rng.random() < 0.5:
+                        S.request(c, "info", {"pad": "p" * rng.randrange(0, 9)})
+                    else:
+                        pl = b"q" * rng.randrange(0, 9)
+                        c.pings.append(pl)
+                        S.send_bytes(c, wire.ws_frame(9, pl, mask=bytes(rng.randrange(256) for _ in range(4))))
+                    if rng.random() < 0.5:
+                        S.settle()
+                c.may_close = True
+                c.track_input = False
+                code_sent = rng.choice([1000, 1001, 3000, 4999])
+                S.send_bytes(c, wire.ws_frame(8, struct.pack(">H", code_sent) + reason, mask=rng.choice([b"\x00\x00\x00\x00", bytes(rng.randrange(256) for _ in range(4))])), pick_chunks(rng))
+                S.settle(**batch_policy(rng))
+                S.stats["close_reasons"] += 1
+                S.stats["close_reasons_wellformed" if wellformed else "close_reasons_illformed"] += 1
+                code = c.dec.close_code
+                S.sig("close-reason", wellformed, min(len(reason) // 8, 15), code)
+                if code is None:
+                    S.v("ws/close-not-answered-with-close-frame:reason-%s" % ("wellformed" if wellformed else "illformed"), "reason %r closed=%s" % (reason, c.closed))
+                elif not wellformed and code != 1007:
+                    S.v("ws/wrong-close-status:close-illformed-utf8-reason", "got %d, expected 1007 for reason %s" % (code, reason.hex()))
+                elif wellformed and code in (1002, 1007):
+                    S.v("ws/legal-close-answered-as-violation:wellformed-reason", "%d for reason %s" % (code, reason.hex()))
+                if not c.closed:
+                    S.v("ws/connection-usable-after-close:reason", "")
+                    S.end(c, "eof")
+                    S.settle()
         elif mode == "echo":
             c = S.connect("e", "ws")
             S.handshake(c)
